@@ -75,6 +75,10 @@ func unquoteString(s string) (string, error) {
 				i += 4
 			} else {
 				replacement, ok := unescapes[r]
+				if r == '"' {
+					// \" is a valid escape too (but quoteString need not produce it).
+					replacement, ok = '"', true
+				}
 				if !ok {
 					return "", errors.New("unrecognized escape code: \\" + s[i-1:i])
 				}
